@@ -17,6 +17,14 @@ fn encode_typed(env: &Env, ts: &[T], vs: &[V]) -> Option<Vec<u8>> {
     let tys: Vec<candid::types::Type> = ts.iter().map(|t| t.to_type()).collect();
     args.to_bytes_with_types(&to_env(env), &tys).ok()
 }
+fn encode_typed_rev(env: &Env, ts: &[T], vs: &[V]) -> Option<Vec<u8>> {
+    let args = IDLArgs::new(&vs.iter().map(|v| v.to_idl_rev()).collect::<Vec<_>>());
+    let tys: Vec<candid::types::Type> = ts.iter().map(|t| t.to_type()).collect();
+    args.to_bytes_with_types(&to_env(env), &tys).ok()
+}
+fn has_wide_record(v: &V) -> bool {
+    match v { V::Rec(fs) => fs.len() >= 2 || fs.iter().any(|f| has_wide_record(&f.1)), V::Opt(Some(x)) | V::Variant(_, x) => has_wide_record(x), V::Vec(xs) => xs.iter().any(has_wide_record), _ => false }
+}
 fn encode_untyped(vs: &[V]) -> Option<Vec<u8>> {
     IDLArgs::new(&vs.iter().map(|v| v.to_idl()).collect::<Vec<_>>()).to_bytes().ok()
 }
@@ -47,6 +55,20 @@ pub fn eval(op: &str, a: &[&str]) -> Option<String> {
                 (Some(_), _) => "(bytes-changed-or-nondeterministic)".into(),
                 (None, _) => "(err)".into(),
             }
+        }
+        "c03.wf.rev" => {
+            // the same values handed over with every record's fields in descending order: the message must not depend on it
+            let (env, ts, vs) = (env_from_sx(a[0]), tys_from(a[1]), vals_from(a[2]));
+            match (encode_typed_rev(&env, &ts, &vs), a[3]) {
+                (None, "err") => "(err)".into(),
+                (Some(b), h) if sx::hex(&b) == h => "(ok)".into(),
+                (Some(_), _) => "(bytes-changed-or-nondeterministic)".into(),
+                (None, _) => "(err)".into(),
+            }
+        }
+        "c10.annotate.rev" => {
+            let p = a[0] == "1"; let env = env_from_sx(a[1]); let t = T::from_sx(&sx::parse(a[2])); let v = V::from_sx(&sx::parse(a[3]));
+            match v.to_idl_rev().annotate_type(p, &to_env(&env), &t.to_type()) { Ok(w) => format!("(ok {})", V::from_idl(&w).sx()), Err(_) => "(err)".into() }
         }
         "c03.encode" => {
             // the bytes of the typed encoder, compared byte for byte with the model's mirror of TypeSerialize + M
@@ -241,6 +263,11 @@ pub fn generate(prop: &str, thorough: bool, r: &mut Rng, em: &mut Emit) {
                 let b = encode_typed(&env, &ts, &vs);
                 em.case_nt("c03.wf", &[es.clone(), tys_sx(&ts), vlist(&vs), b.map(|b| sx::hex(&b)).unwrap_or("err".into())], big);
                 em.case_nt("m.c03.encode", &[es.clone(), tys_sx(&ts), vlist(&vs)], big);
+                if vs.iter().any(has_wide_record) {
+                    em.stat("records-in-descending-field-order");
+                    let b = encode_typed_rev(&env, &ts, &vs);
+                    em.case_nt("c03.wf.rev", &[es.clone(), tys_sx(&ts), vlist(&vs), b.map(|b| sx::hex(&b)).unwrap_or("err".into())], true);
+                }
                 if vs.iter().all(|v| uniform(&v.to_idl())) {
                     let b = encode_untyped(&vs);
                     em.case_nt("c03.wf_untyped", &[vlist(&vs), b.map(|b| sx::hex(&b)).unwrap_or("err".into())], big);
@@ -264,6 +291,7 @@ pub fn generate(prop: &str, thorough: bool, r: &mut Rng, em: &mut Emit) {
                 for (t, v) in ts.iter().zip(&vs) {
                     em.case_nt("c10.annotate", &["1".into(), es.clone(), t.sx(), v.sx()], v.size() > 2);
                     em.case_nt("c10.annotate", &["0".into(), es.clone(), t.sx(), v.sx()], v.size() > 2);
+                    if has_wide_record(v) { em.stat("records-in-descending-field-order"); em.case_nt("c10.annotate.rev", &["1".into(), es.clone(), t.sx(), v.sx()], true); em.case_nt("c10.annotate.rev", &["0".into(), es.clone(), t.sx(), v.sx()], true); }
                     // known finding: reference types whose signature mentions an uninhabited record cycle
                     let cls = if has_record_cycle(&env) && has_ref(&env, t, 3) { "p.c10.roundtrip.ref-over-record-cycle" } else { "p.c10.roundtrip" };
                     em.case_nt(cls, &[es.clone(), t.sx(), v.sx()], v.size() > 2);
